@@ -19,9 +19,10 @@ RUNS = {"quick": 4000, "thorough": 100000}
 CHUNK = {"quick": 40, "thorough": 200}
 PROBES = ["body_with_crlfcrlf", "body_with_nul", "body_large", "param_binary", "param_plus_encoding", "header_value_colon_space",
           "header_value_high_bytes", "no_headers", "path_with_semicolon", "status_edge", "malformed_rejected",
-          "many_params", "session_population", "empty_body", "reparse_after_history"]
+          "many_params", "session_population", "empty_body", "reparse_after_history", "param_reserved_char_unencoded"]
 RULE = ("seeded plans: 85% shaped messages - 8-20 messages per plan: requests (token methods, ASCII paths incl. ';', "
-        "parameter maps with arbitrary key/value bytes and non-empty values percent-encoded with %20 or '+', header maps "
+        "parameter maps with arbitrary key/value bytes and non-empty values percent-encoded with %20 or '+' (the sender leaves a "
+        "random subset of the reserved characters ?/:@!$'()*,;= unencoded), header maps "
         "with values containing ': ' and high bytes, bodies with CRLFCRLF / NULs / up to 64 KiB), responses (status "
         "100-599, single-token reasons) and constructed malformed start lines (0,1,2,4 tokens, HTTP/ prefix with wrong "
         "arity, non-numeric status); 15% full sessions. non-trivial = message has parameters or a body containing "
@@ -98,13 +99,16 @@ def generate(rng, tier, index):
                 if k in seen:
                     continue
                 seen.add(k)
-                v = rng.choice([_w(rng, 1, 20).encode(), _bytes(rng, 1, 40), b"a b+c", b"%41", b"="])
+                v = rng.choice([_w(rng, 1, 20).encode(), _bytes(rng, 1, 40), b"a b+c", b"%41", b"=", b"/login?user=bob", b"?",
+                                b"a=b=c", b"x;y", b"http://h/p?q=1", (_w(rng, 0, 5) + rng.choice("?/:@=;,!*") + _w(rng, 0, 5)).encode()])
                 params.append([hx(k), hx(v)])
             path = "/" + _w(rng, 0, 30, _PATHCH.replace("%", ""))
             if path.startswith("//"):
                 path = "/x" + path[2:]
             msgs.append({"type": "req", "method": hx(_w(rng, 1, 8, _TOKEN.replace("_", "")).encode()), "path": hx(path.encode()),
-                         "params": params, "headers": _headers(rng), "body": hx(_body(rng)), "plus": rng.random() < 0.5})
+                         "params": params, "headers": _headers(rng), "body": hx(_body(rng)), "plus": rng.random() < 0.5,
+                         # reserved characters the sender leaves unencoded inside the query (legal per RFC 3986)
+                         "raw_safe": hx(bytes(sorted(set(rng.sample(list(b"?/:@!$'()*,;="), rng.choice([0, 0, 1, 3, 13]))))))})
         elif r < 0.8:
             msgs.append({"type": "resp", "status": rng.choice([100, 200, 204, 301, 404, 500, 599, rng.randint(100, 599)]),
                          "reason": hx(rng.choice([b"OK", b"Not-Found", _w(rng, 1, 10).encode(), bytes([rng.randint(0x21, 0x7E)])])),
@@ -148,7 +152,10 @@ def execute(plan: dict) -> Result:
         if m["type"] == "req":
             method, path = unhx(m["method"]), unhx(m["path"])
             params = [(unhx(k), unhx(v)) for k, v in m["params"]]
-            wire = rc.serialize_request(method, path, params, headers, body, plus_for_space=m["plus"])
+            raw_safe = unhx(m.get("raw_safe", ""))
+            wire = rc.serialize_request(method, path, params, headers, body, plus_for_space=m["plus"], raw_safe=raw_safe)
+            if raw_safe and any(c in k + v for k, v in params for c in raw_safe):
+                res.probes["param_reserved_char_unencoded"] += 1
             if params:
                 res.nontrivial = True
             if any(any(c > 126 or c < 33 for c in k + v) for k, v in params):
